@@ -4,9 +4,15 @@ set -u
 ID=$1; TIER=${2:-quick}; PID=${ID%%_*}; D=/verif/seeded/$ID
 cd /verif
 [ -z "$(git -C /repo status --porcelain)" ] || { echo "/repo not clean"; exit 2; }
-git -C /repo apply $D/patch.diff || { echo "PATCH DOES NOT APPLY TO /repo"; exit 2; }
+if ! git -C /repo apply $D/patch.diff 2>/dev/null; then
+  # the tree moved on (fix: commits): re-base the patch with a 3-way apply and store the refreshed diff
+  git -C /repo apply --3way $D/patch.diff || { git -C /repo reset -q --hard HEAD; echo "PATCH DOES NOT APPLY TO /repo"; exit 2; }
+  git -C /repo diff HEAD -- src > $D/patch.diff.new
+  git -C /repo reset -q HEAD
+  [ -s $D/patch.diff.new ] && mv $D/patch.diff.new $D/patch.diff && echo "patch re-based onto $(git -C /repo rev-parse --short HEAD)"
+fi
 out=$(timeout 1800 ./verify check $PID --tier $TIER 2>&1); rc=$?
-git -C /repo checkout -- .
+git -C /repo reset -q --hard HEAD
 echo "$out" | tail -6; echo "check rc=$rc"
 python3 - "$ID" "$rc" "$TIER" "$(echo "$out" | grep -E "VIOLATION|tier=" | head -4)" <<'PY'
 import json,sys
